@@ -157,7 +157,7 @@ class FnT(GD.FnD):
             if isinstance(n, ast.AugAssign) and isinstance(n.target, ast.Name):
                 names.add(n.target.id)
             if isinstance(n, ast.Call) and isinstance(n.func, ast.Attribute) and isinstance(n.func.value, ast.Name) \
-                    and n.func.attr in ("add", "append"):
+                    and n.func.attr in ("add", "append", "update"):
                 names.add(n.func.value.id)
             if isinstance(n, ast.For):
                 for y in ast.walk(n.target):
@@ -165,7 +165,7 @@ class FnT(GD.FnD):
                         names.discard(y.id)
             if isinstance(n, ast.Yield):
                 has_yield = True
-        names = sorted(x for x in names if x in env and env[x] in ("oNset", "pagerecs", "N", "bool", "bytes"))
+        names = sorted(x for x in names if x in env and env[x] in ("oNset", "pagerecs", "N", "bool", "bytes", "listB", "pdict"))
         return names, has_yield
 
     def forloop(self, s, env, nxt):
